@@ -467,10 +467,40 @@ Section Env.
     f_attrs (rtdc_copy sel ib il it f) = f_attrs f.
   Proof. unfold C08.rtdc_copy. destruct (fold_left _ _ _). reflexivity. Qed.
 
-  (* rtdc_copy (and so repack) leaves the software version chain alone *)
-  Theorem copy_preserves_version sel ib il it f :
-    f_soft (rtdc_copy sel ib il it f) = f_soft f.
+  (* rtdc_copy (and so repack) leaves the software version chain alone,
+     unless it rewrites an internal basin definition: that goes through
+     RTDCWriter, which brands the destination *)
+  Theorem copy_version sel ib il it f :
+    f_soft (rtdc_copy sel ib il it f)
+    = if ib && basin_rewrites (feature_iter sel ib f) f
+      then bump_version (f_soft f) else f_soft f.
   Proof. unfold C08.rtdc_copy. destruct (fold_left _ _ _). reflexivity. Qed.
+
+  Theorem copy_preserves_version sel il it f :
+    f_soft (rtdc_copy sel false il it f) = f_soft f.
+  Proof. rewrite copy_version. reflexivity. Qed.
+
+  Lemma bump_version_idem_in segs :
+    bump_version (bump_version segs) = bump_version segs.
+  Proof.
+    destruct segs as [|a l]; [reflexivity|].
+    assert (H : bump_version (a :: l) = a :: l
+                \/ bump_version (a :: l) = (a :: l) ++ [SEG_CUR]).
+    { unfold bump_version. destruct (last (a :: l) 0 =? SEG_CUR); auto. }
+    destruct H as [H|H].
+    - now rewrite !H.
+    - rewrite H. unfold bump_version.
+      destruct ((a :: l) ++ [SEG_CUR]) eqn:E2; [discriminate|].
+      rewrite <- E2, last_last, Z.eqb_refl. reflexivity.
+  Qed.
+
+  Lemma bump_after_copy sel ib il it f :
+    bump_version (f_soft (rtdc_copy sel ib il it f)) = bump_version (f_soft f).
+  Proof.
+    rewrite copy_version.
+    destruct (ib && basin_rewrites (feature_iter sel ib f) f); [|reflexivity].
+    apply bump_version_idem_in.
+  Qed.
 
   Theorem copy_preserves_logs sel ib it f :
     Forall (fun kd => wf_dset (snd kd)) (f_logs f) ->
@@ -629,7 +659,7 @@ Section Env.
   Proof.
     cbv zeta. unfold compress, with_soft, with_logs. cbn. repeat split.
     - apply copy_preserves_metadata.
-    - now rewrite copy_preserves_version.
+    - apply bump_after_copy.
   Qed.
 
   (* compress as a whole: features *)
@@ -838,30 +868,9 @@ Section Env.
     /\ f_soft out = bump_version (f_soft f).
   Proof.
     cbv zeta. unfold condense, condense_base. destruct w; cbn; repeat split;
-      try apply copy_preserves_metadata; now rewrite copy_preserves_version.
+      try apply copy_preserves_metadata; apply bump_after_copy.
   Qed.
 
-  (* version_brand appends exactly one segment, or nothing when the chain
-     already ends with the current version *)
-  Theorem bump_version_spec segs :
-    bump_version segs = segs ++ [SEG_CUR]
-    \/ (bump_version segs = segs /\ segs <> [] /\ last segs 0 = SEG_CUR).
-  Proof.
-    unfold bump_version. destruct segs as [|a l]; [now left|].
-    destruct (last (a :: l) 0 =? SEG_CUR) eqn:E.
-    - right. split; [reflexivity|]. split; [discriminate|lia].
-    - now left.
-  Qed.
-
-  Theorem bump_version_idem segs :
-    bump_version (bump_version segs) = bump_version segs.
-  Proof.
-    destruct (bump_version_spec segs) as [H|[H [Hn Hl]]].
-    - rewrite H. unfold bump_version at 1.
-      destruct (segs ++ [SEG_CUR]) eqn:E; [destruct segs; discriminate|].
-      rewrite <- E, last_last, Z.eqb_refl. reflexivity.
-    - now rewrite !H.
-  Qed.
 End Env.
 
 (* ---------------------------------------------------------------------- *)
